@@ -3,15 +3,16 @@
 # /repo and /verif), the checks named in seeded/<name>/checks.txt (or derived from the name) are built against it
 # (VERIF_REPO) and run in the quick tier, the worktree is reverted.  /repo itself is never touched.
 export GOFLAGS=-mod=mod GOPROXY=off GOSUMDB=off GOTOOLCHAIN=local
+V=$(cd $(dirname $0); pwd)
 WT=/tmp/seedwt
 git -C /repo worktree remove --force $WT 2>/dev/null
 git -C /repo worktree add -q --detach $WT HEAD || exit 2
-cd /verif
+cd $V
 for d in seeded/*/; do
   NAME=$(basename $d)
   if [ -f $d/checks.txt ]; then CHECKS=$(cat $d/checks.txt); else CHECKS=$(echo $NAME | cut -c1-3); fi
   git -C $WT checkout -q -- .
-  if ! git -C $WT apply /verif/$d/patch.diff 2>/dev/null; then echo "$NAME patch does not apply to HEAD (superseded by a fix?)"; continue; fi
+  if ! git -C $WT apply $V/$d/patch.diff 2>/dev/null; then echo "$NAME patch does not apply to HEAD (superseded by a fix?)"; continue; fi
   echo "{\"confirmed\": \"demo passes on clean tree, fails with patch (confirmed in a scratch worktree when the seed was made)\", \"regression\": \"checks built against a scratch worktree of /repo HEAD with the patch applied\", \"checks\": {" > $d/verif_result.json
   for c in $CHECKS; do
     VERIF_REPO=$WT VERIF_RUN_TAG=seed ./check $c > /tmp/seedall_${NAME}_$c.txt 2>&1; rc=$?
